@@ -267,6 +267,15 @@ pub fn c03_rates(_m: &mut Mon, ctx: &StepCtx, stats: &mut Stats, out: &mut Vec<V
                 if eb != Some(atomics(h.bsei_applied_exchange_rate)) || es != Some(atomics(h.stsei_applied_exchange_rate)) {
                     viol(out, "C03", "batch_undelegated_at_current_rate", ctx.idx, "hub.process_undelegations:applied_rate", format!("batch {} applied rates ({}, {}) but backing/(supply+requests) = ({:?}, {:?})", h.batch_id, h.bsei_applied_exchange_rate, h.stsei_applied_exchange_rate, eb.map(dec), es.map(dec)));
                 }
+                // ... and is undelegated for floor(requests x rate) coins: the Undelegate messages of
+                // this transaction add up to exactly that
+                if let (Some(rb), Some(rs)) = (eb, es) {
+                    let want = mul_rate(h.bsei_amount.u128(), rb).unwrap_or(0) + mul_rate(h.stsei_amount.u128(), rs).unwrap_or(0);
+                    let got: u128 = ctx.out.map(|o| o.calls.iter().filter(|c| c.sender == HUB && c.ok).filter_map(|c| if let MsgRec::Undelegate { amount, .. } = &c.msg { Some(*amount) } else { None }).sum()).unwrap_or(0);
+                    if got != want {
+                        viol(out, "C03", "batch_undelegated_for_floor_requests_times_rate", ctx.idx, "hub.process_undelegations:undelegated_amount", format!("batch {} holds {} bSei at {} and {} stSei at {} = {} coins, but {} were undelegated", h.batch_id, h.bsei_amount, dec(rb), h.stsei_amount, dec(rs), want, got));
+                    }
+                }
             }
         }
     }
